@@ -6,6 +6,10 @@
 // Layouts are written from the sFlow version 5 structure definitions (sflow.org/sflow_version_5.txt).
 package sflow
 
+// decoding does a bounded amount of work per datagram (C02): no function of this package may wait on a channel;
+// a channel operation has to be a case of a select with a default clause
+//@ pkgopt nonblocking *
+
 //@ ifaceas io.ReadSeeker *ghost.Stream
 //@ ifaceas io.Reader *ghost.Stream
 //@ intrinsic read binread 0 1
